@@ -18,6 +18,27 @@ RAW_CALLEES = ("rabuf::SmallRead::read_exact_maybeslice", "std::io::Write::write
 FIELD_NAMES = {"size": "slot size", "len": "length", "raw": "payload", "off": "offset field", "next": "free-list link"}
 
 
+def _vfile_helpers(prog):
+    from .roles import VARFILE, M_VFILE
+    from .model import short
+    return [(f, [short(x) for x in f.inputs], short(f.output)) for f in prog.fns.values()
+            if f.crate == "abyssiniandb" and f.impl_self_adt == VARFILE and f.impl_trait is None and f.module == M_VFILE and len(f.inputs) == 2]
+
+
+def skip_len_fns(prog):
+    """seek_skip_length: (&mut VarFile, Length<T>) -> Result<Offset<T>> (by name, else by signature)"""
+    hs = _vfile_helpers(prog)
+    named = [f for f, i, o in hs if f.name == "seek_skip_length"]
+    return named or [f for f, i, o in hs if i[1].startswith("Length<") and o.startswith("Result<Offset<")]
+
+
+def skip_to_fns(prog):
+    """seek_skip_to_piece_key / _value: (&mut VarFile, Offset<Piece<T>>) -> Result<Offset<Piece<T>>> (by name, else by signature)"""
+    hs = _vfile_helpers(prog)
+    named = [f for f, i, o in hs if f.name in SKIP_TO]
+    return named if len(named) == len(SKIP_TO) else [f for f, i, o in hs if i[1].startswith("Offset<Piece<") and o.startswith("Result<Offset<Piece<")]
+
+
 class Cursor:
     def __init__(self, prog, R):
         self.prog = prog
@@ -27,8 +48,8 @@ class Cursor:
             f = R.get(r)
             if f is not None:
                 self.role_of[f.id] = r
-        self.skip_len = [f.id for f in prog.fns.values() if f.crate == "abyssiniandb" and f.name == "seek_skip_length"]
-        self.skip_to = [f.id for f in prog.fns.values() if f.crate == "abyssiniandb" and f.name in SKIP_TO]
+        self.skip_len = [f.id for f in skip_len_fns(prog)]
+        self.skip_to = [f.id for f in skip_to_fns(prog)]
         self.summ = {}
         self.visiting = set()
 
